@@ -110,10 +110,12 @@ pub fn gen(stream: &str, tier: &str, seed: u64, out: &mut dyn Write) -> bool {
             let mut emit = |vals: &[Val], r: &mut Rng, all: bool| {
                 let vs: Vec<String> = vals.iter().map(|v| v.sexp()).collect();
                 let vs = vs.join(" ");
+                let big = vs.len() > 8000;       // a payload around the zero-copy threshold: every string API on every buffer
                 for p in protos {
                     if stream == "C04" { if p != Proto::UBin { let _ = writeln!(out, "l {} {}", p.name(), vs); } }
                     for b in bufs {
                         if !all && !r.chance(1, 2) { continue; }
+                        if big { for api in ["b", "v", "f"] { let _ = writeln!(out, "rt {} {} {} {}", p.name(), b.name(), api, vs); } continue; }
                         let api = *r.pick(&["b", "v", "f"]);
                         let _ = writeln!(out, "rt {} {} {} {}", p.name(), b.name(), api, vs);
                         if b == BufK::Bm && p != Proto::UBin { let _ = writeln!(out, "w {} {} {} {}", p.name(), b.name(), api, vs); }
